@@ -1,7 +1,8 @@
 // C16 trace recorder for the proof-game tool.
 //   h_proof games   <seed> <n> <gamesOut> <fensOut>       random legal games from the initial position (1..150 plies, >= 26 men kept)
 //   h_proof convert <gamesFile> <filterOutput> <traceOut>  join the games with `texelutil proofgame -f -o` verdicts; SAN proofs -> coordinates
-//   (games: optional 6th argument = least number of men kept, default 26)
+//   (games: optional 6th argument = least number of men kept, default 26; 7th argument "shuffle" = short games with repetitions)
+//   h_proof pgn     <gamesFile> <outDir>                   one PGN file per game
 //   h_proof bounds  <seed> <gamesFile> <traceOut> <perGame> ProofGame::distLowerBound(prefix -> final) against the game's own continuation
 #include "hcommon.hpp"
 #include "proofgame.hpp"
@@ -47,10 +48,13 @@ int main(int argc, char** argv) {
         std::ofstream gos(argv[4]), fos(argv[5]);
         Random rnd(seed, 0xC16);
         const int minMen = argc > 6 ? atoi(argv[6]) : 26;
+        // "shuffle": short games that return to earlier positions and leave them by a different move (initial paths for 'proofgame -ipgn')
+        const bool shuffle = argc > 7 && std::string(argv[7]) == "shuffle";
         for (int g = 0; g < n; g++) {
             Position pos = TextIO::readFEN(TextIO::startPosFEN);
             const bool pawnRush = rnd.nextInt(4) == 0;      // games in which pawns run (promotions, en passant, long pawn paths)
-            int plies = 1 + rnd.nextInt(150);
+            int plies = 1 + rnd.nextInt(shuffle ? 30 : 150);
+            int shState = 0; Move backA, backB, firstOfShuffle;      // shuffle state machine
             if (rnd.nextInt(3) == 0) plies = 1 + rnd.nextInt(24);
             if (rnd.nextInt(6) == 0) plies = 1 + rnd.nextInt(5);      // very short games: the last moves are forced (retro analysis)
             std::string line;
@@ -67,19 +71,41 @@ int main(int argc, char** argv) {
                     m = Move();
                 }
                 if (m.isEmpty()) break;
+                bool forced = false;
+                if (shuffle) {
+                    auto quiet = [&](const Move& x) { int pc = pos.getPiece(x.from()); return (pc == Piece::WKNIGHT || pc == Piece::BKNIGHT || pc == Piece::WBISHOP || pc == Piece::BBISHOP ||
+                                                                                                pc == Piece::WQUEEN || pc == Piece::BQUEEN) && pos.getPiece(x.to()) == Piece::EMPTY; };
+                    auto legalNow = [&](const Move& x) { for (int i = 0; i < ml.size; i++) if (ml[i] == x) return true; return false; };
+                    if (shState == 0 && rnd.nextInt(4) == 0 && p + 5 <= plies) {
+                        for (int t = 0; t < 20; t++) { const Move& c = ml[rnd.nextInt(ml.size)]; if (quiet(c)) { m = c; backA = Move(c.to(), c.from(), Piece::EMPTY); firstOfShuffle = c; shState = 1; forced = true; break; } }
+                    } else if (shState == 1) {
+                        shState = 0;
+                        for (int t = 0; t < 20; t++) { const Move& c = ml[rnd.nextInt(ml.size)]; if (quiet(c)) { m = c; backB = Move(c.to(), c.from(), Piece::EMPTY); shState = 2; forced = true; break; } }
+                    } else if (shState == 2) {
+                        shState = 0;
+                        if (legalNow(backA)) { m = backA; shState = 3; forced = true; }
+                    } else if (shState == 3) {
+                        shState = 0;
+                        if (legalNow(backB)) { m = backB; shState = 4; forced = true; }
+                    } else if (shState == 4) {
+                        shState = 0;                      // the position before the shuffle is on the board again: leave it by another move
+                        for (int t = 0; t < 20 && m == firstOfShuffle; t++) m = ml[rnd.nextInt(ml.size)];
+                        forced = true;
+                    }
+                }
                 // prefer castling / double pushes now and then (castling rights and ep state in the goal position)
-                for (int i = 0; i < ml.size && rnd.nextInt(6) == 0; i++) {
+                for (int i = 0; i < ml.size && !forced && rnd.nextInt(6) == 0; i++) {
                     int pc = pos.getPiece(ml[i].from());
                     if ((pc == Piece::WKING || pc == Piece::BKING) && std::abs(ml[i].to().asInt() - ml[i].from().asInt()) == 2) { m = ml[i]; break; }
                 }
                 // pieces capturing rooks / minor pieces at home (goals where a castling right survives although rooks were lost)
-                if (pos.nPieces() > minMen && rnd.nextInt(3) == 0)
+                if (!forced && pos.nPieces() > minMen && rnd.nextInt(3) == 0)
                     for (int i = 0; i < ml.size; i++) {
                         int pc = pos.getPiece(ml[i].from()), victim = pos.getPiece(ml[i].to());
                         bool pawn = pc == Piece::WPAWN || pc == Piece::BPAWN;
                         if (!pawn && (victim == Piece::WROOK || victim == Piece::BROOK)) { m = ml[i]; break; }
                     }
-                if (pos.getEpSquare().isValid() && rnd.nextInt(2) == 0 && pos.nPieces() > minMen)
+                if (!forced && pos.getEpSquare().isValid() && rnd.nextInt(2) == 0 && pos.nPieces() > minMen)
                     for (int i = 0; i < ml.size; i++) {
                         int pc = pos.getPiece(ml[i].from());
                         if ((pc == Piece::WPAWN || pc == Piece::BPAWN) && ml[i].to() == pos.getEpSquare()) { m = ml[i]; break; }
@@ -89,6 +115,21 @@ int main(int argc, char** argv) {
             }
             gos << line << "\n";
             fos << TextIO::toFEN(pos) << "\n";
+        }
+        return 0;
+    }
+    if (mode == "pgn") {        // h_proof pgn <gamesFile> <outDir>: game k as <outDir>/g<k>.pgn (initial paths for 'proofgame -ipgn')
+        auto games = readGames(argv[2]);
+        for (size_t k = 0; k < games.size(); k++) {
+            std::ofstream pg(std::string(argv[3]) + "/g" + std::to_string(k) + ".pgn");
+            pg << "[Event \"x\"]\n[Result \"*\"]\n\n";
+            Position p = TextIO::readFEN(TextIO::startPosFEN);
+            for (const Move& m : games[k]) {
+                if (p.isWhiteMove()) pg << p.getFullMoveCounter() << ". ";
+                pg << TextIO::moveToString(p, m, false) << " ";
+                UndoInfo ui; p.makeMove(m, ui);
+            }
+            pg << "*\n";
         }
         return 0;
     }
